@@ -56,6 +56,42 @@ fn main() {
             }
         }
     }
+    // string literals of the crate's code (same files, test modules excluded): names at which behaviour may branch
+    // (section-name prefixes and the like); used as section names and by-name queries
+    let mut strings: std::collections::BTreeSet<String> = std::collections::BTreeSet::new();
+    if let Ok(rd) = std::fs::read_dir(format!("{repo}/src")) {
+        for e in rd.flatten() {
+            let p = e.path();
+            let fname = p.file_name().and_then(|x| x.to_str()).unwrap_or("").to_string();
+            if !fname.ends_with(".rs") || fname == "abi.rs" || fname == "to_str.rs" {
+                continue;
+            }
+            if let Ok(text) = std::fs::read_to_string(&p) {
+                let code = text.split("#[cfg(test)]").next().unwrap_or("");
+                for line in code.lines() {
+                    let l = line.trim_start();
+                    if l.starts_with("//") || l.starts_with("#[") || l.contains("panic!") || l.contains("write!") || l.contains("format!") || l.contains("expect(") || l.contains("feature") || l.contains("cfg") {
+                        continue;
+                    }
+                    let mut rest = l;
+                    while let Some(a) = rest.find('"') {
+                        let after = &rest[a + 1..];
+                        let Some(b) = after.find('"') else { break };
+                        let lit = &after[..b];
+                        if (2..=24).contains(&lit.len()) && lit.bytes().all(|c| (0x21..0x7f).contains(&c) && c != b'\\' && c != b'{' && c != b'}') {
+                            strings.insert(lit.to_string());
+                        }
+                        rest = &after[b + 1..];
+                    }
+                }
+            }
+        }
+    }
+    out.push_str("pub static SRC_STRINGS: &[&str] = &[\n");
+    for r in strings.iter().take(64) {
+        let _ = writeln!(out, "    \"{r}\",");
+    }
+    out.push_str("];\n");
     out.push_str("pub static ABI_REFERENCED: &[&str] = &[\n");
     for r in &referenced {
         let _ = writeln!(out, "    \"{r}\",");
